@@ -37,6 +37,9 @@ type Conn struct {
 	parsed    int       // bytes of C2B covered by Pkts
 	ParseErr  error
 	WriteErrN int // writes that returned an error on this connection
+	credits   []creditEv
+	stalled   bool // a write timed out without progress: nothing may follow
+	WriteAfterFail bool
 	Sent      []SentPkt
 	HandStep  []int // per Sent entry: step at which the client had read it completely (0: not yet)
 	handIdx   int
@@ -152,6 +155,7 @@ func (c *Conn) Close() error {
 	}
 	c.closedLocal = true
 	c.CloseStep = c.w.Steps
+	c.w.Trouble()
 	c.w.Ev("close", c.id, "conn%d closed by client", c.id)
 	return nil
 }
@@ -182,8 +186,29 @@ func (c *Conn) SetWriteDeadline(t time.Time) error {
 	return nil
 }
 
+type creditEv struct{ off, step int }
+
+// firstByteStep is the step at which the byte at offset off was written.
+func (c *Conn) firstByteStep(off int) int {
+	st := 0
+	for _, e := range c.credits {
+		if e.off > off {
+			break
+		}
+		st = e.step
+	}
+	return st
+}
+
 // credit appends accepted bytes to the wire log and parses complete packets.
 func (c *Conn) credit(b []byte) {
+	if len(b) == 0 {
+		return
+	}
+	if c.stalled {
+		c.WriteAfterFail = true
+	}
+	c.credits = append(c.credits, creditEv{len(c.C2B), c.w.Steps})
 	c.C2B = append(c.C2B, b...)
 	for c.ParseErr == nil {
 		pk, n, err := ParseOne(c.C2B[c.parsed:], true)
@@ -240,6 +265,7 @@ func (c *Conn) Break(kind int) {
 	}
 	c.Broken = kind
 	c.CloseStep = c.w.Steps
+	c.w.Trouble()
 	if kind == 2 {
 		c.B2C = c.B2C[:c.rdCur]
 	}
@@ -356,6 +382,9 @@ func (s *Sim) writeAction(p *park) Action {
 				s.sleepExact(d)
 			}
 			op.n, op.err = k, c.errTimeout("write")
+			if k == 0 {
+				c.stalled = true
+			}
 			w.Ev("write", c.id, "%s conn%d %d/%d bytes then timeout", p.g, c.id, k, n)
 			s.unpark(p)
 			return
@@ -405,6 +434,8 @@ func (s *Sim) dialAction(p *park) Action {
 		o := w.X.(netOptser).Net()
 		if op.ctx.Err() != nil {
 			op.err = op.ctx.Err()
+			w.Trouble()
+			w.Ev("dial", 0, "%s dial -> %v", p.g, op.err)
 			s.unpark(p)
 			return
 		}
